@@ -13,6 +13,19 @@ var NonWf = map[string]string{
 	"wallet.RawMessage": "helper struct with a plain *boc.Cell field (a cell stored inline replaces the cell under construction)",
 }
 
+// types that contain a hand-written codec whose round-trip lemma (CodecOK) is not proved yet: the model of the codec
+// exists and is compared with the implementation on every run, but the generic theorem does not cover these types
+var unprovedCodec = map[string]string{
+	"tlb.SnakeData": "snake", "tlb.Bytes": "snake", "tlb.Text": "snake", "tlb.ContentData": "snake", "tlb.FullContent": "snake",
+	"abi.EncryptedTextCommentJettonPayload": "snake", "abi.EncryptedTextCommentMsgBody": "snake",
+	"abi.EncryptedTextCommentNFTPayload": "snake", "abi.GetNftApiInfoResult": "snake", "abi.GetTelemintTokenNameResult": "snake",
+	"abi.TextCommentJettonPayload": "snake", "abi.TextCommentMsgBody": "snake", "abi.TextCommentNFTPayload": "snake",
+	"abi.TorrentInfo": "snake",
+	"tlb.VmCellSlice": "vmCellSlice", "tlb.VmStackValue": "vmCellSlice",
+	"wallet.PayloadV1toV4": "payloadV1toV4", "wallet.MessageV3": "payloadV1toV4", "wallet.MessageV4": "payloadV1toV4",
+	"wallet.W5Actions": "w5Actions", "wallet.MessageV5Beta": "w5Actions",
+}
+
 // get-method result structs: filled from the VM stack, never laid out in a cell; they hold boc.Cell / Any values inline
 var getMethodResults = []string{
 	"abi.GetAmmContractData_StormResult", "abi.GetChannelDataResult", "abi.GetCollectionDataResult",
@@ -25,6 +38,9 @@ var getMethodResults = []string{
 }
 
 func init() {
+	for n, c := range unprovedCodec {
+		NonWf[n] = "contains the hand-written codec `" + c + "` whose CodecOK lemma is not proved (model compared with the implementation on every run)"
+	}
 	for _, n := range getMethodResults {
 		NonWf[n] = "get-method result struct (filled from the VM stack, not a cell layout): cells / greedy values stored inline"
 	}
@@ -33,5 +49,6 @@ func init() {
 // NotTlb: members of NonWf that are not cell layouts at all; they are excluded from the round-trip oracles too.
 func NotTlb(name string) bool {
 	_, ok := NonWf[name]
-	return ok && name != "tlb.VmStack" && name != "tlb.BlkPrevInfo"
+	_, unproved := unprovedCodec[name]
+	return ok && !unproved && name != "tlb.VmStack" && name != "tlb.BlkPrevInfo"
 }
